@@ -656,3 +656,22 @@ Proof.
   rewrite chk_u64_some by lia. cbn [obind].
   apply no_trap_sbs_fill_range; lia.
 Qed.
+
+(* ---- Coverage format 2 / Device / SVG index arithmetic ---- *)
+Lemma no_trap_cov2_get sg eg sc gid : u16 sg -> u16 gid -> cov2_get sg eg sc gid <> None.
+Proof.
+  intros Hs Hg. unfold cov2_get, u16 in *. destruct ((gid <? sg) || (eg <? gid)) eqn:E; [discriminate|].
+  unfold cov2_index. rewrite chk_u16_some by (unfold u16; lia). cbn [obind]. discriminate.
+Qed.
+Lemma no_trap_device_count ss es : u16 es -> device_count ss es <> None.
+Proof.
+  intros H. unfold device_count, addu64, u16 in *. rewrite chk_u64_some by lia. cbn [obind]. discriminate.
+Qed.
+Lemma device_count_value ss es : u16 ss -> u16 es ->
+  device_count ss es = Some (if ss <=? es then es - ss + 1 else 0).
+Proof.
+  intros Hs He. unfold device_count, addu64, u16 in *. rewrite chk_u64_some by lia. cbn [obind].
+  unfold sat_u, clamp. change (2 ^ 64 - 1) with 18446744073709551615. f_equal. destruct (ss <=? es) eqn:E; lia.
+Qed.
+Lemma no_trap_svg_doc_slice off len n : svg_doc_slice off len n <> None.
+Proof. discriminate. Qed.
